@@ -16,7 +16,7 @@ Extraction "model.ml" HeapModel.step HeapModel.run HeapModel.pop_all_e HeapModel
   GnatModel.gnat_nearestK GnatModel.gnat_nearestR
   CopyModel.copy_state_data
   EitModel.call_tests EitModel.call_performed EitModel.call_whitelists EitModel.order
-  RrtModel.rrt_solve RrtModel.rrt_calls RrtModel.rlrt_solve RrtModel.crrt_run RrtModel.crrti_run RrtConnectModel.rc_solve RrtConnectModel.c_ts RrtConnectModel.c_tg LazyRrtModel.lazy_solve
+  RrtModel.rrt_solve RrtModel.rrt_calls RrtModel.rlrt_solve RrtModel.crrt_run RrtModel.crrti_run RrtConnectModel.rc_solve RrtConnectModel.rc_solves RrtConnectModel.c_ts RrtConnectModel.c_tg LazyRrtModel.lazy_solve
   GnatFullModel.gf_add GnatFullModel.gf_add_list GnatFullModel.gf_remove GnatFullModel.gf_clear GnatFullModel.gf_empty
   CodecModel.serialize CodecModel.deserialize CodecModel.wf CodecModel.to_reals CodecModel.from_reals CodecModel.signature CodecModel.ser_len CodecModel.sdim
   CodecModel.store_states CodecModel.load_states CodecModel.store_pd CodecModel.load_pd CodecModel.mark_start CodecModel.mark_goal CodecModel.add_vertex
